@@ -604,6 +604,10 @@ type EncOpts struct {
 	OmitNil   bool `json:"omitnil,omitempty"`
 	OmitEmpty bool `json:"omitempty,omitempty"`
 	BytesAs   int  `json:"bytesas,omitempty"` // 0 string 1 base64 2 array
+	// CreateKey: every struct is written with one more member, CreateKey: type name (with the
+	// package path and a slash in front when FullTypePath is set)
+	CreateKey    string `json:"createkey,omitempty"`
+	FullTypePath bool   `json:"fulltypepath,omitempty"`
 }
 
 // Drop rules for object members.
@@ -763,6 +767,25 @@ func Encode(rv reflect.Value, o EncOpts, feats map[string]bool) *ENode {
 	case reflect.Struct:
 		n := &ENode{Kind: "object"}
 		rt := rv.Type()
+		if o.CreateKey != "" {
+			// options.go: {"type": "MyType", "a": 3, "b": true}
+			name := rt.Name()
+			if o.FullTypePath {
+				name = rt.PkgPath() + "/" + rt.Name()
+			}
+			feats["create-key"] = true
+			n.Keys = append(n.Keys, o.CreateKey)
+			n.Elems = append(n.Elems, &ENode{Kind: "string", S: name})
+			if name == "" && o.OmitEmpty {
+				// a struct type without a name (reflect.StructOf, struct literals): the type member
+				// is an empty string, which OmitEmpty may or may not apply to
+				n.Rules = append(n.Rules, MayDrop)
+				n.Zones = append(n.Zones, "empty-type-name-under-omitempty")
+			} else {
+				n.Rules = append(n.Rules, Keep)
+				n.Zones = append(n.Zones, "")
+			}
+		}
 		for i := 0; i < rt.NumField(); i++ {
 			sf := rt.Field(i)
 			if sf.PkgPath != "" {
@@ -800,7 +823,12 @@ func Encode(rv reflect.Value, o EncOpts, feats map[string]bool) *ENode {
 			if sf.Anonymous && fv.Kind() == reflect.Struct && !o.NestEmbed {
 				// embedded struct: its fields are promoted into the parent
 				feats["embedded-flattened"] = true
-				sub := Encode(fv, o, feats)
+				so := o
+				so.CreateKey = "" // the promoted fields come without a type member of their own
+				sub := Encode(fv, so, feats)
+				if o.CreateKey != "" {
+					sub = reEncodeNested(fv, o, feats, sub)
+				}
 				n.Keys = append(n.Keys, sub.Keys...)
 				n.Elems = append(n.Elems, sub.Elems...)
 				n.Rules = append(n.Rules, sub.Rules...)
@@ -833,6 +861,24 @@ func Encode(rv reflect.Value, o EncOpts, feats map[string]bool) *ENode {
 		return n
 	}
 	return &ENode{Kind: "null", Feature: []string{"unsupported-kind"}}
+}
+
+// reEncodeNested: the fields promoted from an embedded struct are encoded with the full options
+// (their own struct values do carry the type member), only the embedded struct's own type
+// member is left out.
+func reEncodeNested(fv reflect.Value, o EncOpts, feats map[string]bool, _ *ENode) *ENode {
+	full := Encode(fv, o, feats)
+	out := &ENode{Kind: full.Kind, IsMap: full.IsMap}
+	for i, k := range full.Keys {
+		if i == 0 && k == o.CreateKey {
+			continue
+		}
+		out.Keys = append(out.Keys, k)
+		out.Elems = append(out.Elems, full.Elems[i])
+		out.Rules = append(out.Rules, full.Rules[i])
+		out.Zones = append(out.Zones, full.Zones[i])
+	}
+	return out
 }
 
 // memberRule: must a member be dropped, must it be kept, or is it in a zone the
